@@ -1,6 +1,7 @@
 package c15
 
 import (
+	"regexp"
 	"strings"
 
 	ir "verif/harness/internal/inputref"
@@ -9,20 +10,194 @@ import (
 
 // Known findings (see FINDINGS.json).
 const (
-	fIntMin = "C15-int-min-literal-rejected"
+	fIntMin   = "C15-int-min-literal-rejected"
+	fExp      = "C15-exponent-sign-without-fraction-rejected"
+	fBlockWs  = "C15-whitespace-only-block-string-not-empty"
+	fBlockEsc = "C15-block-string-escaped-triple-quote-keeps-backslash"
+	fVarDflt  = "C15-defaulted-variable-inside-literal-not-defaulted"
+	fNullDflt = "C15-null-default-of-list-variable-wrapped"
+	fShift    = "C15-input-list-element-shift"
+	fSingle   = "C15-default-value-not-list-coerced"
+	fBrace    = "C15-brace-unicode-escape-copied-into-json"
+	fRawTab   = "C15-raw-tab-in-string-literal-invalid-json"
+	fBlockQ   = "C15-block-string-edge-quote-lost"
+	fBlockBs  = "C15-block-string-backslash-before-escaped-triple-quote-rejected"
 )
 
+var reEdgeQuote = regexp.MustCompile(`^[ \t\r\n\\]*"|"[ \t\r\n\\]*$`)
+
 const intMin = "-2147483648"
+
+var reExpSign = regexp.MustCompile(`^-?\d+[eE][+-]\d+$`)
+
+// tokens lexes GraphQL text with the spec lexer of this harness.
+func tokens(text string) []ir.Token {
+	lx := ir.NewLexer(text, ir.LexOpts{})
+	var out []ir.Token
+	for {
+		t, err := lx.Next()
+		if err != nil || t.Kind == ir.TEOF {
+			return out
+		}
+		out = append(out, t)
+	}
+}
+
+func anyToken(c *Case, pred func(ir.Token) bool) bool {
+	for _, t := range tokens(c.Query) {
+		if pred(t) {
+			return true
+		}
+	}
+	return false
+}
+
+// substitute replaces variables inside a literal by their request value (or default).
+func substitute(c *Case, lit *ir.Value, vars *ir.Value) *ir.Value {
+	if lit == nil {
+		return nil
+	}
+	switch lit.K {
+	case ir.VVar:
+		if v := vars.Get(lit.S); v != nil {
+			return v
+		}
+		for _, d := range c.Decls {
+			if d.Name == lit.S && d.Default != "" {
+				if dv, err := ir.ParseLiteral(d.Default, ir.LexOpts{}); err == nil {
+					return dv
+				}
+			}
+		}
+		return ir.Null()
+	case ir.VList:
+		out := &ir.Value{K: ir.VList}
+		for _, x := range lit.L {
+			out.L = append(out.L, substitute(c, x, vars))
+		}
+		return out
+	case ir.VObj:
+		out := &ir.Value{K: ir.VObj}
+		for _, m := range lit.O {
+			out.O = append(out.O, ir.Member{Key: m.Key, V: substitute(c, m.V, vars)})
+		}
+		return out
+	}
+	return lit
+}
+
+// eachArgument calls f with (argument type, argument value with variables substituted) for
+// every selected field that gives its argument.
+func eachArgument(c *Case, vars *ir.Value, f func(t *ir.Type, v *ir.Value) bool) bool {
+	for _, fu := range c.Fields {
+		if fu.Arg == "" {
+			continue
+		}
+		lit, err := ir.ParseLiteral(fu.Arg, ir.LexOpts{})
+		if err != nil {
+			continue
+		}
+		if f(c.Schema.Echo(fu.Echo).Arg.T(), substitute(c, lit, vars)) {
+			return true
+		}
+	}
+	return false
+}
+
+// omittedDefaultedVarInsideLiteral: a variable with a default and no request value is used
+// inside (not as the whole of) an argument literal.
+func omittedDefaultedVarInsideLiteral(c *Case, vars *ir.Value) bool {
+	for _, d := range c.Decls {
+		if d.Default == "" || vars.Get(d.Name) != nil {
+			continue
+		}
+		for _, fu := range c.Fields {
+			if fu.Arg == "$"+d.Name {
+				continue
+			}
+			for _, t := range tokens(fu.Arg) {
+				if t.Kind == ir.TName && t.Text == d.Name {
+					return true
+				}
+			}
+		}
+	}
+	return false
+}
+
+func omittedListVarWithNullDefault(c *Case, vars *ir.Value) bool {
+	for _, d := range c.Decls {
+		if d.Default == "null" && d.T().Elem != nil && vars.Get(d.Name) == nil {
+			return true
+		}
+	}
+	return false
+}
+
+func defaultNeedsListCoercion(c *Case, vars *ir.Value) bool {
+	var roots []*ir.Type
+	for _, fu := range c.Fields {
+		roots = append(roots, c.Schema.Echo(fu.Echo).Arg.T())
+	}
+	for _, d := range c.Decls {
+		roots = append(roots, d.T())
+	}
+	if ir.FieldDefaultNeedsListCoercion(&c.Schema, ir.ReachableInputs(&c.Schema, roots)) {
+		return true
+	}
+	for _, d := range c.Decls {
+		if d.Default != "" && vars.Get(d.Name) == nil {
+			if lit, err := ir.ParseLiteral(d.Default, ir.LexOpts{}); err == nil && ir.LiteralNeedsListCoercion(&c.Schema, d.T(), lit, 0) {
+				return true
+			}
+		}
+	}
+	return false
+}
 
 type recogniser struct {
 	id    string
 	where []string // which failure sites it may explain
-	match func(c *Case, vars *ir.Value, lits map[string]*ir.Value, msg string) bool
+	match func(c *Case, vars *ir.Value, msg string) bool
 }
 
+var (
+	valueSites = []string{"normalized-value", "upstream-value"}
+	anySite    = []string{"rejected", "normalized-value", "upstream-value", "normalized-eval", "upstream-eval"}
+)
+
 var recognisers = []recogniser{
-	{fIntMin, []string{"rejected"}, func(c *Case, _ *ir.Value, _ map[string]*ir.Value, msg string) bool {
+	{fIntMin, []string{"rejected"}, func(c *Case, _ *ir.Value, msg string) bool {
 		return strings.Contains(msg, "Int cannot represent non 32-bit signed integer value: "+intMin) && strings.Contains(c.Query, intMin)
+	}},
+	{fExp, append([]string{"invalid-json"}, anySite...), func(c *Case, _ *ir.Value, msg string) bool {
+		return anyToken(c, func(t ir.Token) bool { return t.Kind == ir.TFloat && reExpSign.MatchString(t.Text) })
+	}},
+	{fBrace, []string{"invalid-json"}, func(c *Case, _ *ir.Value, msg string) bool {
+		return anyToken(c, func(t ir.Token) bool { return t.Kind == ir.TString && strings.Contains(t.Text, `\u{`) })
+	}},
+	{fRawTab, []string{"invalid-json"}, func(c *Case, _ *ir.Value, msg string) bool {
+		return strings.Contains(msg, "raw control character 0x09") && anyToken(c, func(t ir.Token) bool { return t.Kind == ir.TString && strings.Contains(t.Text, "\t") })
+	}},
+	{fBlockQ, valueSites, func(c *Case, _ *ir.Value, msg string) bool {
+		return anyToken(c, func(t ir.Token) bool {
+			return t.Kind == ir.TBlockString && len(t.Text) >= 6 && reEdgeQuote.MatchString(t.Text[3:len(t.Text)-3])
+		})
+	}},
+	{fBlockBs, []string{"rejected"}, func(c *Case, _ *ir.Value, msg string) bool {
+		return anyToken(c, func(t ir.Token) bool { return t.Kind == ir.TBlockString && strings.Contains(t.Text, `\\"""`) })
+	}},
+	{fBlockWs, valueSites, func(c *Case, _ *ir.Value, msg string) bool {
+		return anyToken(c, func(t ir.Token) bool { return t.Kind == ir.TBlockString && t.Value == "" && len(t.Text) > 6 })
+	}},
+	{fBlockEsc, valueSites, func(c *Case, _ *ir.Value, msg string) bool {
+		return anyToken(c, func(t ir.Token) bool { return t.Kind == ir.TBlockString && strings.Contains(t.Text, `\"""`) })
+	}},
+	{fNullDflt, anySite, func(c *Case, vars *ir.Value, msg string) bool { return omittedListVarWithNullDefault(c, vars) }},
+	{fVarDflt, anySite, func(c *Case, vars *ir.Value, msg string) bool { return omittedDefaultedVarInsideLiteral(c, vars) }},
+	{fSingle, anySite, func(c *Case, vars *ir.Value, msg string) bool { return defaultNeedsListCoercion(c, vars) }},
+	{fShift, anySite, func(c *Case, vars *ir.Value, msg string) bool {
+		return eachArgument(c, vars, func(t *ir.Type, v *ir.Value) bool { return ir.ShiftShape(&c.Schema, t, v, 0) })
 	}},
 }
 
@@ -30,7 +205,7 @@ var recognisers = []recogniser{
 func known(c *Case, vars *ir.Value, lits map[string]*ir.Value, where string, v pbt.Verdict) pbt.Verdict {
 	for _, r := range recognisers {
 		for _, w := range r.where {
-			if w == where && r.match(c, vars, lits, v.Msg) {
+			if w == where && r.match(c, vars, v.Msg) {
 				return pbt.BadKnown(r.id, "%s", v.Msg)
 			}
 		}
